@@ -252,11 +252,20 @@ def replay(ctx, path):
         print('(no case line in this replay file: it names the theorem / table rows that no longer check)')
         return 1
     bad = 0
+    # a check module may judge a replayed case itself (`replay_judge(case, go_res, lean_res) -> list of reasons`),
+    # e.g. when the implementation line carries oracle fields the model line does not have
+    judge = getattr(load_check(ctx.prop), 'replay_judge', None)
     for c, g, l in R.replay_cases(ctx, lines):
         print(c)
         print('  implementation:', g)
         print('  model/spec:    ', l)
-        if R.parse_res(g).get('_raw', '').split()[2:] != R.parse_res(l).get('_raw', '').split()[2:]:
+        if judge is not None:
+            reasons = judge(c, g, l)
+            for r in reasons:
+                print('  ->', r)
+            if reasons:
+                bad += 1
+        elif R.parse_res(g).get('_raw', '').split()[2:] != R.parse_res(l).get('_raw', '').split()[2:]:
             bad += 1
     print('differs' if bad else 'agrees')
     return 1 if bad else 0
